@@ -58,6 +58,8 @@ var hostFuncs = map[string]interface{}{
 	"go/types.TypeString":       types.TypeString,
 	"go/types.ObjectString":     types.ObjectString,
 	"go/types.Identical":        types.Identical,
+	"go/types.Implements":       types.Implements,
+	"go/types.AssignableTo":     types.AssignableTo,
 	"go/types.Instantiate":      types.Instantiate,
 	"go/types.NewContext":       types.NewContext,
 	"go/types.RelativeTo":       types.RelativeTo,
